@@ -170,7 +170,8 @@ func checkC18(c c18Case, rec *Rec) *Violation {
 	lineNames[fifth] = []string{"same-ip.example", c.Names[0]}
 	text += fifth + "\n"
 	// the list id varies with the line; 0 makes the storage index of the first line 0
-	st, err := filterlist.NewRuleStorage([]filterlist.RuleList{&filterlist.StringRuleList{ID: []int{0, 3, -1}[hash64(line)%3], RulesText: text}})
+	// (cosmetic rules are ignored for some lists: hosts lines are not cosmetic rules)
+	st, err := filterlist.NewRuleStorage([]filterlist.RuleList{&filterlist.StringRuleList{ID: []int{0, 3, -1}[hash64(line)%3], RulesText: text, IgnoreCosmetic: hash64(line)%5 < 2}})
 	if err != nil {
 		return viol(id, "C18:harness", "storage: %v", err)
 	}
@@ -182,7 +183,8 @@ func checkC18(c c18Case, rec *Rec) *Violation {
 		if got := h.Match(p); got != listed[p] {
 			return viol(id, c18Sig(c, "C18:match-differs"), "line %q: HostRule.Match(%q)=%v, listed=%v", line, p, got, listed[p])
 		}
-		res, _ := d.Match(p)
+		// the record type asked for does not change which lines name p
+		res, _ := d.MatchRequest(&urlfilter.DNSRequest{Hostname: p, DNSType: []uint16{0, 1, 28, 16}[hash64(p+line)%4]})
 		// every line naming p, and no other, is answered
 		wantLines, gotLines := map[string]bool{}, map[string]bool{}
 		for ln, names := range lineNames {
@@ -286,7 +288,9 @@ func genC18(t *rapid.T) c18Case {
 		case 3:
 			cm = pick(t, "dollar", []string{" a$$b", "$$", " x$@$y", " price: $5", "$", " $domain=x"}) + rapid.StringMatching(`[ -~]{0,4}`).Draw(t, "tail2")
 		case 4:
-			cm = pick(t, "plain", []string{"note", " note", "", " ", "\tnote", "!x", " ||x^"})
+			cm = pick(t, "plain", []string{"note", " note", "", " ", "\tnote", "!x", " ||x^",
+				// element-hiding markers further inside the comment
+				" replaces a.org##.banner", "see issue##12", " a##b", " x#@#y", "note #?#z", " a.org#$#body{}"})
 		}
 		c.Comment = &cm
 		if chance(t, "blank-before", 2) {
